@@ -482,3 +482,7 @@ pub fn zinc_fixed_point_pub(text: &str, rec: &mut Rec) -> Verdict {
 pub fn hayson_fixed_point_pub(text: &str, rec: &mut Rec) -> Verdict {
     hayson_fixed_point(text, rec)
 }
+
+pub fn check_fixpoint_pub(d: &Doc, rec: &mut Rec) -> Verdict {
+    check_fixpoint(d, rec)
+}
